@@ -926,6 +926,10 @@ def make_replay(monitors):
                         continue
                     print("MONITOR: %s: %s" % (kind, detail))
                     ctx.violations.append(dict(kind=kind, detail=detail, connection=c.cid, ops=c.lines))
+        if ctx.pid[:3] in ("C11", "C12"):
+            for cid, kind, detail, lines in mon_pool(ops2, impl):
+                print("MONITOR: %s: %s" % (kind, detail))
+                ctx.violations.append(dict(kind=kind, detail=detail, connection=cid, ops=lines))
         return cov
     return replay
 
@@ -952,11 +956,16 @@ def mon_resolve_deadlock_only(c):
 
 
 def run_c12(ctx):
-    return run_areas(ctx, ["cliresolve", "cliwfail", "clirace", "clistall"], [mon_resolve, mon_stall, mon_errvalue],
-                     "cliresolve: request sets x hostile server behaviour x cut points of a recorded byte stream x Close/timeout. " + WFAIL_NOTE + STALL_NOTE)
+    out = run_areas(ctx, ["cliresolve", "cliwfail", "clirace", "clistall"], [mon_resolve, mon_stall, mon_errvalue],
+                    "cliresolve: request sets x hostile server behaviour x cut points of a recorded byte stream x Close/timeout. " + WFAIL_NOTE + STALL_NOTE)
+    return run_pool(ctx, out)
 
 
 def run_c11(ctx):
+    return run_pool(ctx, _run_c11(ctx))
+
+
+def _run_c11(ctx):
     return run_areas(ctx, ["cligoaway", "cliwfail", "clirace", "clistall"], [mon_goaway, mon_resolve_deadlock_only, mon_errvalue, mon_stall_goaway_only],
                      "cligoaway: GOAWAY(last, code, debug data) at every position relative to in-flight requests, answers in every order; what "
                      "LastErr and the requests' errors say about the GOAWAY is compared with the frame sent, when handed out and again after "
@@ -986,6 +995,129 @@ ASSUME = [
     "lock-protected sections are atomic, channels behave as Go channels; the interleaving theorems quantify over the atomic actions listed in H2/Client/Inter*.lean",
     "fasthttp (request/response storage, header normalisation), bufio, net and time are parameters of the model",
 ]
+
+
+
+# ---------------------------------------------------------------------------------------------------------------------
+# clipool: the pooling client (client.go) behind fasthttp's RoundTrip interface, against scripted TLS servers in memory.
+# Monitor-only family (the Lean driver answers `mon`): judged by what the servers saw against what they said.
+
+def mon_pool(ops, impl):
+    """returns [(client id, kind, detail, ops of that client)]"""
+    out = []
+    by = collections.OrderedDict()
+    for o, a in zip(ops, impl):
+        f = o.split(" ")
+        if len(f) >= 2 and f[0].startswith("pool.cl."):
+            by.setdefault(f[1], []).append((f, a))
+    for cid, steps in by.items():
+        lines = [" ".join(f) for f, _ in steps]
+        v = []
+        mcs = 0
+        occ = collections.defaultdict(list)       # tag -> [(conn, sid)] in the order they became known
+        known = set()
+        closed = set()                            # (conn, sid) ended by the server
+        disclaimed = set()                        # (conn, sid) the server disclaimed
+        goaways = collections.defaultdict(list)   # conn -> [last]
+        answers = {}                              # (conn, sid) -> status of the first answer
+        final = {}
+        ended = False
+
+        def note(tag, k, sid):
+            if (k, sid) not in known:
+                known.add((k, sid))
+                occ[tag].append((k, sid))
+
+        for f, a in steps:
+            op = f[0]
+            kv = dict(x.split("=", 1) for x in a.split(" ") if "=" in x)
+            if a.startswith("panic") or a == "bad-op":
+                v.append(("harness-op-failed", "%s -> %s" % (" ".join(f), a)))
+                continue
+            if op == "pool.cl.new":
+                for x in f[2:]:
+                    if x.startswith("mcs="):
+                        mcs = int(x[4:])
+            elif op == "pool.cl.rt" and "conn" in kv:
+                k, sid = int(kv["conn"]), int(kv["sid"])
+                note(f[2], k, sid)
+                if any(l < sid for l in goaways[k]):
+                    v.append(("stream-opened-after-goaway", "%s on connection %d stream %d after GOAWAY(last=%s)" % (f[2], k, sid, goaways[k])))
+                if mcs:
+                    live = [x for x in known if x[0] == k and x not in closed and x not in disclaimed]
+                    if len(live) > mcs:
+                        v.append(("more-streams-than-max-concurrent-streams", "connection %d: %d open, limit %d" % (k, len(live), mcs)))
+            elif op in ("pool.cl.answer", "pool.cl.partial", "pool.cl.refuse", "pool.cl.goaway", "pool.cl.goaway2", "pool.cl.hangup") and "conn" in kv:
+                k, sid = int(kv["conn"]), int(kv["sid"])
+                note(f[2], k, sid)
+                if op == "pool.cl.answer":
+                    if (k, sid) not in closed and (k, sid) not in disclaimed:
+                        answers.setdefault((k, sid), int(kv["status"]))
+                        closed.add((k, sid))
+                elif op == "pool.cl.partial":
+                    closed.add((k, sid))
+                elif op == "pool.cl.refuse":
+                    if (k, sid) not in closed:
+                        disclaimed.add((k, sid))
+                elif op in ("pool.cl.goaway", "pool.cl.goaway2"):
+                    last = int(kv["last"])
+                    goaways[k].append(last)
+                    for (k2, s2) in list(known):
+                        if k2 == k and s2 > last and (k2, s2) not in closed:
+                            disclaimed.add((k2, s2))
+            elif op == "pool.cl.seen":
+                for part in a.split(" ")[1:]:
+                    c, _, lst = part.partition("=")
+                    if lst in ("-", ""):
+                        continue
+                    for h in lst.split(","):
+                        sid, path, _ = h.split(":")
+                        k = int(c[1:])
+                        # a stream that arrives above a GOAWAY's last-stream-id on that connection counts as disclaimed too
+                        if (k, int(sid)) not in known and any(l < int(sid) for l in goaways[k]):
+                            disclaimed.add((k, int(sid)))
+                        note(path[1:], k, int(sid))
+            elif op == "pool.cl.end":
+                ended = True
+            elif op == "pool.cl.res":
+                final[f[2]] = (a, ended)
+        for tag, (a, after_end) in final.items():
+            kv = dict(x.split("=", 1) for x in a.split(" ") if "=" in x)
+            n, d = len(occ[tag]), sum(1 for x in occ[tag] if x in disclaimed)
+            if n > 1 + d:
+                v.append(("request-sent-again-without-being-disclaimed", "%s reached the servers %d times %s, disclaimed %d times" % (tag, n, occ[tag], d)))
+            if a.startswith("mon pending") and after_end:
+                v.append(("request-never-resolved", "%s still waiting after Client.Close" % tag))
+            if kv.get("retry") == "1" and occ[tag] and occ[tag][-1] not in disclaimed:
+                v.append(("written-request-reported-retryable", "%s: last sent on %s, which no server disclaimed; err=%s" % (tag, occ[tag][-1], kv.get("err"))))
+            if kv.get("err") == "ok":
+                sts = {answers[x] for x in occ[tag] if x in answers}
+                if int(kv.get("st", "0")) not in sts:
+                    v.append(("response-is-not-the-one-sent", "%s got status %s, the servers answered it with %s" % (tag, kv.get("st"), sorted(sts))))
+        for kind, detail in v:
+            out.append((cid, kind, detail, lines))
+    return out
+
+
+def run_pool(ctx, out):
+    """runs the clipool family and adds its coverage to `out`"""
+    ops, impl, model = ctx.gen_run_compare(ctx.pid, "clipool", ctx.tier, ctx.seed, ctx.log)
+    kinds = collections.Counter()
+    for cid, kind, detail, lines in mon_pool(ops, impl):
+        kinds[kind] += 1
+        if len(ctx.violations) < 40:
+            ctx.violations.append(dict(kind=kind, detail=detail, area="clipool", connection=cid, ops=lines,
+                                       impl=[a for o, a in zip(ops, impl) if o.split(" ")[1:2] == [cid]][:200]))
+    clients = len({o.split(" ")[1] for o in ops if o.startswith("pool.cl.new")})
+    out.setdefault("families", {})
+    out["clipool"] = dict(clients=clients, ops=len(ops), round_trips=sum(1 for o in ops if o.startswith("pool.cl.rt")),
+                          monitor_findings=dict(kinds),
+                          outcomes=dict(collections.Counter(" ".join(a.split(" ")[1:4]) for o, a in zip(ops, impl) if o.startswith("pool.cl.res"))))
+    out["rule"] = out.get("rule", "") + (" clipool: Client.RoundTrip (pickConn, the retry loop, onConnectionDropped) through fasthttp's transport interface against "
+                                         "scripted TLS servers in memory: a request's HEADERS reach the servers at most once more than it was disclaimed (GOAWAY below "
+                                         "its stream, REFUSED_STREAM); retry is reported only for a disclaimed or never-written request; every call returns by "
+                                         "Client.Close at the latest; the response is the one sent; streams per connection within MAX_CONCURRENT_STREAMS. Monitor-only.")
+    return out
 
 
 def register(PROPS):
